@@ -12,6 +12,10 @@ use verif_harness::*;
 mod common;
 use common::*;
 
+/// reserved seeds: `Spec.initialState` fills every byte of every physical register (except the stack pointer and
+/// the flags) with 0x80 resp. 0xff
+const PATTERN_SEEDS: [u64; 2] = [0xFFFF_0080, 0xFFFF_00FF];
+
 fn run_guarded(project: &Project, pass: &str) -> Result<(Project, Vec<String>), String> {
     let mut p = project.clone();
     let pass = pass.to_string();
@@ -95,9 +99,10 @@ fn main() {
          trivial_operation_substitution, loads, stores, conditional chains with shared conditions, def-free forwarding \
          blocks, loops incl. back to the entry block, stack-pointer arithmetic and masking, direct/indirect/extern calls, \
          indirect jumps, returns; assignment cycles `Y = f(X); X = g(Y)` through 2-3 registers followed by a jump / diamond / loop \
-         back-edge and observable reads of X) -> real normalize_basic -> every optimizing pass (chained as in normalize_optimize, \
+         back-edge and observable reads of X; nested extension casts of every ordered pair of kinds, directly and through an \
+         inlined temporary, reaching an observable) -> real normalize_basic -> every optimizing pass (chained as in normalize_optimize, \
          or alone) -> programs before/after; each function is run from several initial states by the Lean reference \
-         interpreter; non-trivial = at least one pass changed the program; distinct by program text",
+         interpreter (random states plus two pattern states with the top bit of every sub-piece set); non-trivial = at least one pass changed the program; distinct by program text",
     );
     let fuel = args.num("fuel", 24, 40);
     if let Some(lines) = args.replay_lines() {
@@ -124,7 +129,8 @@ fn main() {
     }
     let mut rng = Rng::new(args.seed);
     let n = args.num("programs", 1500, 40000);
-    let nstates = args.num("states", 4, 8);
+    // `--tier search` (run after a model/implementation disagreement): more initial states per program
+    let nstates = if args.tier == "search" && !args.extra.contains_key("states") { 16 } else { args.num("states", 4, 8) };
     let mut counts: BTreeMap<String, u64> = BTreeMap::new();
     // `--crafted 1`: hand-written shapes of the defects found in the unchanged tree, every pass alone and
     // the chain (this is how the files in corpus/C10 were produced; the corpus is replayed by every check)
@@ -132,7 +138,8 @@ fn main() {
     for (name, program) in crafted {
         let mut project = project_x64(program);
         let _ = project.normalize_basic();
-        let seeds: Vec<u64> = (0..8).map(|k| 1000 + k).collect();
+        let mut seeds: Vec<u64> = (0..8).map(|k| 1000 + k).collect();
+        seeds.extend(PATTERN_SEEDS);
         let all: Vec<String> = PASSES.iter().map(|s| s.to_string()).collect();
         let (l, _) = case_line(&project, &all, true, &seeds, fuel, &mut out);
         out.case(&l, Some(name));
@@ -145,16 +152,19 @@ fn main() {
     // directed programs that are always run: assignment cycles across a block boundary (the whole chain and
     // expression propagation alone)
     if !args.extra.contains_key("crafted") {
-        for (name, program) in cycle_directed_programs() {
+        for (name, program) in cycle_directed_programs().into_iter().chain(castnest_directed_programs()) {
             let mut project = project_x64(program);
             let _ = project.normalize_basic();
-            let seeds: Vec<u64> = (0..nstates).map(|k| 2000 + k).collect();
+            let mut seeds: Vec<u64> = (0..nstates).map(|k| 2000 + k).collect();
+            seeds.extend(PATTERN_SEEDS);
             let all: Vec<String> = PASSES.iter().map(|s| s.to_string()).collect();
             let (l, _) = case_line(&project, &all, true, &seeds, fuel, &mut out);
             out.case(&l, Some(name));
-            let (l, _) = case_line(&project, &["prop".to_string()], false, &seeds, fuel, &mut out);
-            out.case(&l, None);
-            out.count("directed:cycle");
+            for single in ["prop", "triv"] {
+                let (l, _) = case_line(&project, &[single.to_string()], false, &seeds, fuel, &mut out);
+                out.case(&l, None);
+            }
+            out.count("directed");
         }
     }
     for _ in 0..n {
@@ -174,7 +184,10 @@ fn main() {
                 continue;
             }
         }
-        let seeds: Vec<u64> = (0..nstates).map(|_| rng.next() >> 16).collect();
+        // random states plus the two pattern states (every byte of every physical register 0x80 / 0xff: the top
+        // bit of every sub-piece is set; `Spec.initialState` interprets the reserved seeds)
+        let mut seeds: Vec<u64> = (0..nstates).map(|_| rng.next() >> 16).collect();
+        seeds.extend(PATTERN_SEEDS);
         let mode = rng.below(10);
         let (passes, with_full): (Vec<String>, bool) = if mode < 5 {
             out.count("mode:chain");
